@@ -34,14 +34,16 @@ pub struct JsonStyle {
     pub shuffle: bool,
     pub pretty: bool,
     pub null_infoset: bool,
+    /// whitespace before the first brace (legal JSON)
+    pub leading: &'static str,
 }
 
 impl JsonStyle {
     pub fn random(r: &mut Rng) -> Self {
-        JsonStyle { shuffle: r.coin(0.5), pretty: r.coin(0.3), null_infoset: r.coin(0.3) }
+        JsonStyle { shuffle: r.coin(0.5), pretty: r.coin(0.3), null_infoset: r.coin(0.3), leading: *r.pick(&["", "", "", "\n", "  ", "\t", "\r\n", "\n\n  "]) }
     }
     pub fn plain() -> Self {
-        JsonStyle { shuffle: false, pretty: false, null_infoset: false }
+        JsonStyle { shuffle: false, pretty: false, null_infoset: false, leading: "" }
     }
 }
 
@@ -56,7 +58,7 @@ fn num(x: f64) -> String {
 }
 
 pub fn to_json_dsl(n: &MNode, r: &mut Rng, st: &JsonStyle) -> String {
-    let mut s = String::new();
+    let mut s = String::from(st.leading);
     json_node(n, r, st, 0, &mut s);
     s.push('\n');
     s
@@ -225,6 +227,8 @@ struct EfgW<'a> {
     next_chance: u64,
     /// chance infoset numbers start here (Gambit's own files start at 1; 0 is legal too)
     chance_base: u64,
+    /// every infoset name of the model, per player
+    all_names: [std::collections::BTreeSet<String>; 2],
     next_outcome: u64,
     shared: BTreeMap<(i128, i128), u64>,
     used_slack: i64,
@@ -373,12 +377,14 @@ impl EfgW<'_> {
                 let p = *player;
                 if !self.info_num[p].contains_key(info) {
                     // sparse, shuffled numbers
+                    let named = !self.r.coin(self.st.p_unnamed);
                     let mut num = self.r.below(40) + 1;
-                    while self.info_num[p].values().any(|v| *v == num) {
+                    // an unnamed infoset is known by its number: that number must not be the
+                    // name of another infoset of the same player (names are per player)
+                    while self.info_num[p].values().any(|v| *v == num) || (!named && self.all_names[p].contains(&num.to_string())) {
                         num += 1;
                     }
                     self.info_num[p].insert(info.clone(), num);
-                    let named = !self.r.coin(self.st.p_unnamed);
                     self.info_named[p].insert(info.clone(), named);
                     self.info_name_written[p].insert(info.clone(), false);
                 }
@@ -458,6 +464,10 @@ pub fn to_efg(model: &MNode, r: &mut Rng, st: &EfgStyle) -> EfgWritten {
         chance_num: BTreeMap::new(),
         next_chance: 0,
         chance_base: st.chance_base,
+        all_names: {
+            let i = model.infosets();
+            [i[0].keys().cloned().collect(), i[1].keys().cloned().collect()]
+        },
         next_outcome: 0,
         shared: BTreeMap::new(),
         used_slack: 0,
